@@ -545,6 +545,13 @@ func (e *Engine) run(s *state) []*state {
 			fr.idx++
 			continue
 		case ssa.Value:
+			// a lookup in a literal table (a package-level map of constants) with a key that is not a constant forks like a
+			// switch over the table's keys: one path per entry (key == that constant), one for "none of them"
+			if lk, ok := v.(*ssa.Lookup); ok {
+				if forks := e.forkTableLookup(s, fr, lk); forks != nil {
+					return forks
+				}
+			}
 			fr.env[v] = e.eval(s, fr, v)
 			fr.idx++
 			continue
@@ -553,6 +560,53 @@ func (e *Engine) run(s *state) []*state {
 			continue
 		}
 	}
+}
+
+func (e *Engine) forkTableLookup(s *state, fr *frame, lk *ssa.Lookup) []*state {
+	if _, isMap := lk.X.Type().Underlying().(*types.Map); !isMap {
+		return nil
+	}
+	m := e.val(s, fr, lk.X)
+	k := e.val(s, fr, lk.Index)
+	if m == nil || k == nil || m.Kind != "maplit" || len(m.Args) == 0 || len(m.Args) > 32 {
+		return nil
+	}
+	if k.Kind == "const" || k.Kind == "global" || k.Kind == "nil" || k.Kind == "stubval" {
+		return nil // decided by the ordinary evaluation
+	}
+	vt := lk.X.Type().Underlying().(*types.Map).Elem()
+	zeroV := mk("zero", "", 0, vt)
+	if bt, ok := vt.Underlying().(*types.Basic); ok && bt.Info()&types.IsNumeric != 0 {
+		zeroV = mk("const", "0", 0, vt)
+	}
+	var forks []*state
+	add := func(facts []Fact, val *Term, found bool) {
+		ns := s.clone()
+		nfr := ns.stack[len(ns.stack)-1]
+		for _, f := range facts {
+			ns.seq++
+			f.Seq = ns.seq
+			f.At = lk.Pos()
+			ns.facts = append(ns.facts, f)
+		}
+		if !feasible(ns.facts) {
+			return
+		}
+		if lk.CommaOk {
+			nfr.env[lk] = mk("tuple", "", 0, nil, val, mk("const", fmt.Sprint(found), 0, types.Typ[types.Bool]))
+		} else {
+			nfr.env[lk] = val
+		}
+		nfr.idx++
+		forks = append(forks, ns)
+	}
+	var none []Fact
+	for i := 0; i+1 < len(m.Args); i += 2 {
+		add([]Fact{{T: eqTerm(k, m.Args[i]), Pos: true}}, m.Args[i+1], true)
+		none = append(none, Fact{T: eqTerm(k, m.Args[i]), Pos: false})
+	}
+	add(none, zeroV, false)
+	return forks
 }
 
 func isLocalAddr(a *Term) bool {
